@@ -1,5 +1,5 @@
 """C03 -- a rendered phase field is a faithful, finite picture of the droplet."""
-from contracts import render as rd, perturbed as pt, lemmas
+from contracts import render as rd, perturbed as pt, lemmas, phasefield as pf
 from pyvc.bounded import ContractSampling
 
 LEVEL = "proof"
@@ -8,16 +8,17 @@ LEVEL_TEXT = ("get_phase_field is verified for all five droplet classes, dims 1-
               "or 1/2+1/2 tanh((rho-delta)/w), hence range, midpoint <=> inside, exact indicator for sharp droplets; rho is the proven "
               "series of C13 in the direction returned by polar_coordinates, whose contract (distance = |grid.difference_vector|, angle "
               "characterisation, DimensionError) is verified too; the binary image and the dimension-mismatch ValueError likewise. "
-              "Monotonicity and roll equivariance are z3 lemmas over these contracts. Emulsion.get_phasefield's sum/clip/order clause and "
-              "the py-pde metric itself are only exercised by the bounded stand-in on real grids.")
+              "Monotonicity and roll equivariance are z3 lemmas over these contracts. Emulsion.get_phasefield is verified too (loop invariant: partial sum of the droplets' fields; every cell == clip(sum over all "
+              "droplets, 0, 1), clipped once in place; empty emulsion -> zero field; order independence by the transposition lemma). The py-pde metric "
+              "itself is only exercised by the bounded stand-in on real grids.")
 LEVEL_NOTE = ("A-FP; A-PDE: grid.difference_vector(origin, cell_coords) is the (periodic) Cartesian vector to each cell centre, "
               "grid.transform round trip, typical_discretization > 0, ScalarField wraps its data (known dependency defect D1: "
               "CylindricalSymGrid with periodic z wraps y instead of z, excluded from the bounded runs); elementary-function facts for "
-              "tanh (range, sign, monotone), arccos, arctan2, Pythagoras; numpy element-wise lifting; Emulsion.get_phasefield bounded only")
+              "tanh (range, sign, monotone), arccos, arctan2, Pythagoras; numpy element-wise lifting, np.clip(out=); ScalarField `+=` adds cell-wise")
 CONTRACTS = [c.ident for c in (rd.PolarCoordinates(), rd.GetPhaseField(), rd.BinaryImage(), rd.DimensionMismatch(),
                                pt.Distance2D(), pt.Distance3D(), pt.DistanceAxi(), pt.HarmonicRealK(), pt.HarmonicReal(),
-                               pt.HarmonicSymmetric(), pt.SphericalIndexLM())]
-LEMMAS = ["profile-non-increasing-in-distance", "periodic-wrap-is-roll-equivariant", "isqrt-unique-and-mode-index-bijection"]
+                               pt.HarmonicSymmetric(), pt.SphericalIndexLM(), pf.GetPhasefield())]
+LEMMAS = ["profile-non-increasing-in-distance", "periodic-wrap-is-roll-equivariant", "isqrt-unique-and-mode-index-bijection", "sum-of-fields-independent-of-droplet-order"]
 BOUNDED = [ContractSampling("render-on-real-grids", [rd.GetPhaseField().ident, rd.DimensionMismatch().ident],
                             "every class x width kind on 4 (quick) / 40 (thorough) seeded droplets, each rendered on 2-4 real grids "
                             "(unit/Cartesian with mixed periodicity, polar, spherical, cylindrical), every cell checked")]
